@@ -49,6 +49,12 @@ def make_class(kind, base, counter):
         for nm in ("__eq__", "__ne__", "__lt__", "__le__", "__gt__", "__ge__", "__hash__", "__bool__", "__len__",
                    "__iter__", "__contains__", "__getitem__"):
             ns[nm] = trap(nm)
+    elif kind == "container":
+        # a node that is also a container of its children (sequence protocol): iterable, sized, indexable, falsy when empty
+        ns["__iter__"] = lambda self: iter(self.children)
+        ns["__len__"] = lambda self: len(self.children)
+        ns["__contains__"] = lambda self, x: any(c is x for c in self.children)
+        ns["__getitem__"] = lambda self, i: self.children[i]
     elif kind == "plain":
         pass
     else:
